@@ -199,3 +199,23 @@ Theorem C03_encoder_tables_are_the_source : forall {T} (keq : T -> T -> bool) (s
   (forall ov, PCD.Gen.SrcTables.fa_add keq st a ov = fa_add keq st a ov).
 Proof. intros. split; intros; [apply SrcTablesTie.fa_setitem_tie | apply SrcTablesTie.fa_add_tie]. Qed.
 Print Assumptions C03_encoder_tables_are_the_source.
+
+(* and the code units and line entries written for one instruction: the body of the final loop of blocks_to_bytes,
+   re-translated on every run (Gen/SrcLines.v, AssembleStep), writes - for every instruction with a positive number of code
+   units, every operand value and every state of the output - the line entry of the instruction, its extra line offsets, the
+   line entries of its EXTENDED_ARG prefixes and exactly the code units of the model's emit_units (prefixes first, the operand
+   cut into bytes from the most significant one), or raises KeyError for an opcode name the interpreter does not know: the
+   step of the model's assemble *)
+From PCD Require Proofs.SrcAssembleTie.
+Theorem C03_assembly_step_is_the_source : forall {C} c (i : instr_ C) v off0 av0 na0 by_ ln ad,
+  0 < n_units (i_nargs i) v ->
+  PCD.Gen.SrcLines.AssembleStep.step (if zmem (i_name i) (cfg_opcodes c) then OK (i_name i) else Err KeyError)
+    (cfg_extended_arg c) (i_line i) (i_lineoffs i) (i_nargs i) v (PCD.Gen.SrcLines.AssembleStep.mk_st off0 av0 na0 by_ ln ad)
+  = if negb (zmem (i_name i) (cfg_opcodes c)) then Err KeyError
+    else OK (PCD.Gen.SrcLines.AssembleStep.mk_st (zlen by_) v (n_units (i_nargs i) v)
+               (by_ ++ emit_units c (i_name i) v (Z.to_nat (n_units (i_nargs i) v)))
+               (fold_left (fun d k => oset d k (i_line i))
+                          (range2 (zlen by_ + 2) (zlen by_ + 2 * n_units (i_nargs i) v)) (oset ln (zlen by_) (i_line i)))
+               (match i_lineoffs i with [] => ad | l => oset ad (zlen by_) l end)).
+Proof. intros C c i v off0 av0 na0 by_ ln ad H. exact (SrcAssembleTie.assemble_step_tie c i v off0 av0 na0 by_ ln ad H). Qed.
+Print Assumptions C03_assembly_step_is_the_source.
